@@ -229,7 +229,11 @@ def run_tlc(cases, wd, name="c01", jobs=12, module="InkSemTrace", envvar="SEM"):
 
 
 MC_FEATURES = {"print", "glue", "tags", "icond", "iseq", "set", "temp", "block_if", "choices", "fallback", "conds", "sticky",
-               "counts", "turns", "loops", "tunnels", "threads", "functions", "labels", "done", "nested"}
+               "counts", "turns", "loops", "tunnels", "threads", "functions", "labels", "done", "nested", "faults"}
+
+
+MC_INVARIANTS = ("LookAheadIsInvisible", "MessagesOnce", "SwitchAwayAndBack", "OthersUntouched", "SaveLoadIdentity", "ResetIsInitial",
+                 "RefusedIsNoOp")
 
 
 def small_programs(seed, n, limit=60):
@@ -238,7 +242,10 @@ def small_programs(seed, n, limit=60):
     while len(out) < n and k < 4000:
         p = gen_ast.generate(seed * 50021 + k, MC_FEATURES, knots=2, size=0.5, focus=("bursts", "nested", None)[k % 3])
         k += 1
-        if sum(len(b) for b in p["prog"]["bodies"]) <= limit and ("<- " in p["ink"] or "->->" in p["ink"] or "<>" in p["ink"]):
+        # every second program raises messages: a warning, or a division by a global (which a host may set to zero)
+        faulty = "wrn {" in p["ink"] or re.search(r"[/%] v\d", p["ink"]) is not None
+        if sum(len(b) for b in p["prog"]["bodies"]) <= limit and ("<- " in p["ink"] or "->->" in p["ink"] or "<>" in p["ink"]) \
+                and (faulty or len(out) % 2 == 0):
             out.append(p)
     return out
 
@@ -254,7 +261,7 @@ def design_check(tier, seed, wd):
     cfg = os.path.join(wd, "InkHostMC-%d.cfg" % calls)
     with open(cfg, "w") as f:
         f.write("SPECIFICATION Spec\nCONSTANT MaxCalls = %d\nVIEW hview\n" % calls)
-        for inv in ("LookAheadIsInvisible", "SwitchAwayAndBack", "OthersUntouched", "SaveLoadIdentity", "ResetIsInitial", "RefusedIsNoOp"):
+        for inv in MC_INVARIANTS:
             f.write("INVARIANT %s\n" % inv)
         f.write("CHECK_DEADLOCK FALSE\n")
 
@@ -272,7 +279,7 @@ def design_check(tier, seed, wd):
         outs = list(ex.map(one, enumerate(progs)))
     return dict(programs=len(progs), max_calls=calls, distinct_states=sum(r["distinct"] for r in outs),
                 states=sum(r["states"] for r in outs), exhaustive=True,
-                invariants=["LookAheadIsInvisible", "SwitchAwayAndBack", "OthersUntouched", "SaveLoadIdentity", "ResetIsInitial", "RefusedIsNoOp"],
+                invariants=list(MC_INVARIANTS),
                 sample_program=progs[0]["ink"] if progs else "")
 
 
